@@ -63,7 +63,7 @@ def singleFrame (p : Policy) : Bool :=
   | _ => false
 
 def seqOp (q : SeqSt) (ws : List String) : SeqSt × String :=
-  if singleFrame q.s.cfg.pol && !q.s.frames.isEmpty && (ws.head? == some "alloc" || ws.head? == some "coro" || ws.head? == some "cdrop") then
+  if singleFrame q.s.cfg.pol && !q.s.frames.isEmpty && (ws.head? == some "alloc" || ws.head? == some "coro" || ws.head? == some "cdrop" || ws.head? == some "cstart") then
     (q, "skip")
   else
   match ws with
@@ -97,6 +97,19 @@ def seqOp (q : SeqSt) (ws : List String) : SeqSt × String :=
   | ["free", id] => match id.toNat? with | some id => seqFree q id false | none => (q, "skip")
   | ["fin", id] => match id.toNat? with | some id => seqFree q id false | none => (q, "skip")
   | ["kill", id] => match id.toNat? with | some id => seqFree q id true | none => (q, "skip")
+  | ["cstart", k, kind, _mode] =>
+      -- `async::start(promise)` with an unclaimable promise: the coroutine stays with the async object, which releases it
+      match k.toNat?, kind.toNat? with
+      | some k, some kind =>
+          let sz := q.fs.getD (kind % 8) 0
+          match step q.s (Op.alloc k sz) with
+          | (s', Res.alloc id blk) =>
+              let (s'', _) := step s' (Op.free id)
+              ({ q with s := s'' },
+               line (s!"cstart#{id} sz={sz} at={blkStr blk}" ++ exA q.s sz ++ " freed=ok" ++ exF q.s sz ++ " started=0") q.s.heap s''.heap)
+          | (_, Res.rejected) => (q, s!"assert sz={sz}")
+          | _ => (q, "skip")
+      | _, _ => (q, "skip")
   | [mv] =>
       -- moves of a plain `reusable_storage`: `mvctor` / `mvassign` are spellings of `moveOut`, `mvself` does nothing
       if q.s.cfg.pol == Policy.reusable && q.s.cfg.extra == 0 &&
